@@ -211,6 +211,8 @@ fn stream_references(rep: &mut Report, ex: &mut Expat, rng: &mut Rng, n: usize) 
         let doctype = declared_only && rng.below(4) == 0;
         let pre = if doctype { "<!DOCTYPE svg [<!ENTITY foo \"bar\"><!ENTITY nbsp \"&#160;\">]>\n" } else { "" };
         let in_attr = rng.below(3) == 0;
+        // the two other things a parser refuses in copied content: "]]>" in character data, '<' in an attribute value
+        if rng.below(8) == 0 { piece.push_str(if in_attr { *rng.pick(&["a<b", "<"]) } else { *rng.pick(&["a ]]> b", "]]>", "]]]>>"]) }); any_bad = true; }
         let place = rng.below(7);
         let carrier = if in_attr { format!("<rect width=\"2\" height=\"2\" data-n=\"{piece}\"/>") } else { format!("<desc>{piece}</desc>") };
         let doc = match place {
@@ -302,6 +304,7 @@ pub fn run_c02(rep: &mut Report, tier: &str, seed: u64) -> Result<(), String> {
     rep.streams.push(st);
     stream_bytes(rep, &mut ex, &mut rng.fork(), nd / 4);
     stream_references(rep, &mut ex, &mut rng.fork(), nd / 2);
+    stream_refcheck(rep, &mut drv, &mut rng.fork(), nd * 2)?;
     corpus(rep, &mut ex, "C02");
     Ok(())
 }
